@@ -437,3 +437,53 @@ def rule_back_cost(ctx, rep, config="c-lib"):
     else:
         rep.violation("R16-back", "find_error_pl_set/error-sets-not-counted", "the backward cost also counts the sets made by shifting `error' in an earlier recovery: the first "
                       "ignored token reported for the next recovery is too small (it can be -1, and build_pl then reads toks[-1])", where=s_.where(), witness=[s_.where()])
+
+
+def rule_parallel_save(ctx, rep, config="c-lib"):
+    rep.rule("R16-parallel-save", "new_recovery_state saves the tail of the parser list and the token numbers of the same sets: the block of pl_tok_nums that is copied "
+                                  "starts at the index at which the loop over the saved sets starts, and has as many elements as the tail (linear forms over the same "
+                                  "values)")
+    from ..model import strip_int_casts
+    p = ctx.prog(config)
+    f = p.fn("new_recovery_state")
+    rep.cover(p, [f.name])
+
+    def elem_index(addr, gname):
+        pa = resolve_addr(f, addr)
+        if pa.root[0] != "val" or pa.fields():
+            return None
+        lp = loaded_from(f, pa.root[1])
+        if lp is None or lp.root != ("g", gname) or lp.steps:
+            return None
+        ixs = [st for st in pa.steps if st[0] in ("idx", "ptr")]
+        return ixs[0][1] if len(ixs) == 1 else ({"k": "c", "v": 0, "w": 32} if not ixs else None)
+    # the loop over the saved sets: reads &pl[i]
+    start = None
+    for c in f.calls():
+        if not (c.callee or "").startswith("llvm.memcpy"):
+            continue
+        ix = elem_index(c.args[1], "pl")
+        if ix is None:
+            continue
+        ph = f.inst(strip_int_casts(f, ix))
+        if ph is not None and ph.op == "phi":
+            inits = [v for (v, pb) in ph.d["incoming"] if not any(pb in L["body"] and ph.block.name == L["header"] for L in f.loops())]
+            if len(inits) == 1:
+                start = expr.lin(f, inits[0], 0, 1)
+    toks = None
+    for c in f.calls():
+        if not (c.callee or "").startswith("llvm.memcpy"):
+            continue
+        ix = elem_index(c.args[1], "pl_tok_nums")
+        if ix is not None:
+            toks = (c, expr.lin(f, ix, 0, 1), expr.lin(f, c.args[2], 0, 1))
+    if start is None or toks is None:
+        raise AnalysisBroken("R16-parallel-save: the copies of the parser list tail / of its token numbers in new_recovery_state were not found")
+    c, tix, tlen = toks
+    key = "new_recovery_state/token-numbers-of-the-saved-sets"
+    if tix == start:
+        rep.ok("R16-parallel-save", key, sample={"copy": c.where(), "from_index": repr(tix)})
+    else:
+        rep.violation("R16-parallel-save", key, "the saved sets start at pl[%r] but their token numbers are copied from pl_tok_nums[%r]: after a restore every set of the "
+                      "tail carries the token number of its neighbour -- TERM nodes with the attribute of another token, or token number -1 (toks[-1] read)" % (start, tix),
+                      where=c.where(), witness=[c.where()])
